@@ -385,7 +385,7 @@ impl Prop for C07 {
             (any::<bool>(), any::<bool>(), prop_oneof![3 => Just(Upfront::None), 1 => Just(Upfront::Wallet), 1 => Just(Upfront::Allowlisted)], delta_strat(), any::<bool>()),
             (prop::bool::weighted(0.12), prop::bool::weighted(0.12), prop::bool::weighted(0.04), prop::bool::weighted(0.04), prop::bool::weighted(0.2)),
             (any::<bool>(), kind_strat(), prop::bool::weighted(0.8), delta_strat(), any::<bool>()),
-            (prop_oneof![1 => Just(RateSel::MinMinus3), 2 => Just(RateSel::Min), 5 => Just(RateSel::Mid), 2 => Just(RateSel::Max), 1 => Just(RateSel::MaxPlus3), 1 => Just(RateSel::Zero)], any::<bool>(), prop::bool::weighted(0.08), prop::bool::weighted(0.1), prop::bool::weighted(0.12), prop::bool::weighted(0.4), prop_oneof![12 => Just(None), 1 => (0u8..2, 0u8..3).prop_map(Some)], 1u8..7, prop::bool::weighted(0.35), prop_oneof![30 => Just(None), 1 => (0u8..4, 0u8..3).prop_map(Some)]),
+            (prop_oneof![1 => Just(RateSel::MinMinus3), 2 => Just(RateSel::Min), 5 => Just(RateSel::Mid), 2 => Just(RateSel::Max), 1 => Just(RateSel::MaxPlus3), 1 => Just(RateSel::Zero)], any::<bool>(), prop::bool::weighted(0.08), prop::bool::weighted(0.1), prop::bool::weighted(0.12), prop::bool::weighted(0.4), prop_oneof![12 => Just(None), 1 => (0u8..2, 0u8..3).prop_map(Some)], 1u8..13, prop::bool::weighted(0.35), prop_oneof![30 => Just(None), 1 => (0u8..4, 0u8..3).prop_map(Some)]),
             (prop_oneof![6 => Just(0u8), 1 => Just(1u8), 1 => Just(2u8), 1 => Just(3u8)], prop::bool::weighted(0.15)),
         )
             .prop_map(|((anchors, outbound, upfront, view_delta, view_delta_neg), (htlc_in_holder, htlc_in_cp, mh, mc, remove_allowlisted), (phase1, holder_script, hseu, prop_delta, prop_delta_neg), (rate, holder_first, extra_output, cp_zero, cp_takes_holder_share, holder_replaced, wire, allow_edit, onchain, startup), (raw_input, fault_retry))| Case {
@@ -476,15 +476,32 @@ impl Prop for C07 {
                     // an earlier version of commitment 1 (no HTLC, slightly other fee rate), replaced below
                     let h1a = finish_content(case.anchors, VALUE, 1100, BASE_CP, vec![], vec![]);
                     let sa = w.chans[ci].cp_sign_holder(&secp, 1, &h1a, SigKind::Valid);
-                    let ra = w.with_chan(ci, |ch| ch.validate_holder_commitment_tx_phase2(1, h1a.feerate, h1a.to_holder, h1a.to_cp, vec![], vec![], &sa.commit_sig, &sa.htlc_sigs));
-                    st.class(format!("holder-commitment-replaced:first-version:{}", ra.tag()));
+                    // both versions through the raw-transaction entry point (ValidateCommitmentTx) when the
+                    // close is requested through the raw entry point as well, else through the semantic one
+                    let ra = if case.phase1 {
+                        let tx = sa.tx.trust().built_transaction().transaction.clone();
+                        let ws = witscripts(&w.chans[ci], &secp, &sa.tx, true);
+                        w.with_chan(ci, |ch| ch.validate_holder_commitment_tx(&tx, &ws, 1, h1a.feerate, vec![], vec![], &sa.commit_sig, &sa.htlc_sigs).map(|_| ()))
+                    } else {
+                        w.with_chan(ci, |ch| ch.validate_holder_commitment_tx_phase2(1, h1a.feerate, h1a.to_holder, h1a.to_cp, vec![], vec![], &sa.commit_sig, &sa.htlc_sigs).map(|_| ()))
+                    };
+                    st.class(format!("holder-commitment-replaced:first-version:{}:{}", if case.phase1 { "raw" } else { "semantic" }, ra.tag()));
                 }
                 let s = w.chans[ci].cp_sign_holder(&secp, 1, &h1, SigKind::Valid);
                 let (o, r) = (to_info2(&h1.offered), to_info2(&h1.received));
-                let r = w.with_chan(ci, |ch| {
-                    ch.validate_holder_commitment_tx_phase2(1, h1.feerate, h1.to_holder, h1.to_cp, o.clone(), r.clone(), &s.commit_sig, &s.htlc_sigs)?;
-                    ch.revoke_previous_holder_commitment(1)
-                });
+                let r = if case.holder_replaced && case.phase1 {
+                    let tx = s.tx.trust().built_transaction().transaction.clone();
+                    let ws = witscripts(&w.chans[ci], &secp, &s.tx, true);
+                    w.with_chan(ci, |ch| {
+                        ch.validate_holder_commitment_tx(&tx, &ws, 1, h1.feerate, o.clone(), r.clone(), &s.commit_sig, &s.htlc_sigs)?;
+                        ch.revoke_previous_holder_commitment(1)
+                    })
+                } else {
+                    w.with_chan(ci, |ch| {
+                        ch.validate_holder_commitment_tx_phase2(1, h1.feerate, h1.to_holder, h1.to_cp, o.clone(), r.clone(), &s.commit_sig, &s.htlc_sigs)?;
+                        ch.revoke_previous_holder_commitment(1)
+                    })
+                };
                 if r.is_ok() {
                     holder_cur = Some(h1);
                 }
@@ -513,7 +530,7 @@ impl Prop for C07 {
             let absent = Address::p2wpkh(&CompressedPublicKey(bitcoin::secp256k1::PublicKey::from_secret_key(&secp, &bitcoin::secp256k1::SecretKey::from_slice(&[0x3c; 32]).unwrap())), Network::Testnet);
             let kind = if case.allow_edit == 0 { 1 } else { case.allow_edit };
             allowlisted_now = crate::world::allowlist_edit(&mut w, &format!("address:{}", allow_addr), &format!("address:{}", absent), kind);
-            st.class(format!("allowlist_edit:{}", kind % 7));
+            st.class(format!("allowlist_edit:{}", crate::world::allowlist_edit_label(kind)));
         }
 
         // --- proposal ---
